@@ -11,7 +11,14 @@
        rx   = previous rx + delta                      (delta may be negative: reception time going backwards)
        ts   = rx - raw delay - LcStart[lc]             (raw delay < 0: a timestamp beyond the reception time)
        calc = rx for control requests, else min(LcStart[lc] + ts, rx)       -- the property's "calculated time"
-   1 tick = 1 s, so the code's constants (1 s entry spacing, 1000 s young-window value) are 1 and 1000.
+   TIME UNIT.  All times (reception, lifecycle start, calculated time) are in model ticks of TickUs microseconds; the
+   calculated time is a MICROSECOND quantity in the code (lifecycle start in us + timestamp in 0.1 ms units, or the
+   reception time in us for control requests / capped messages), so it is finer than the timestamp resolution:
+   lifecycle starts and reception times need not lie on the 0.1 ms timestamp grid, and two calculated times less than
+   0.1 ms apart are DIFFERENT times that have to come out in their order.  Sec = ticks per second (the code's 1 s entry
+   spacing and 1000 s young-window value are Sec and 1000*Sec), TsGrid = timestamp resolution in ticks (timestamps are
+   multiples of it).  The coarse configs use TickUs = 10^6, Sec = 1, TsGrid = 1; the sub-tick config uses TickUs = 50,
+   Sec = 20000, TsGrid = 2 with lifecycle starts that differ by an odd number of ticks (50 us off each other's grid).
 
    A message's identity is its position in the input (idx); its index FIELD (what the code's heap compares after the
    calculated time) is a separate value and may repeat (IndexMode).  Among buffered messages with equal
@@ -38,13 +45,14 @@ CONSTANTS Ecus,        \* set of ECU names (strings)
           Delays,      \* raw delays rx - (start + ts) of ordinary messages (negative: timestamp beyond rx; > D: outside the bound)
           CtrlDelays,  \* raw delays of control requests (their timestamp is ignored); {} = no control requests
           Record,      \* TRUE: remember the inputs (scenario emission), FALSE: exhaustive checking without history
+          Sec, TsGrid, TickUs, BaseTicks,   \* time unit (see above); BaseTicks * TickUs = the absolute time of tick 0 for the replay
           IndexMode    \* the messages' index field: "pos" = 0,1,2,.. (what one producer in adlt delivers), "zero" = never
                        \* assigned, "mod2" = 0,1,0,1,.. (merged sources each numbered on their own): duplicates allowed
 
 VARIABLES n, rxNow, heap, win, thr, out, bound, inputs, done
 vars == <<n, rxNow, heap, win, thr, out, bound, inputs, done>>
 
-YOUNG == 1000
+YOUNG == 1000 * Sec
 Max2(a, b) == IF a > b THEN a ELSE b
 Min2(a, b) == IF a < b THEN a ELSE b
 NoWin == [lc |-> 0, entries |-> <<>>, cur |-> 0]
@@ -56,7 +64,7 @@ Init == /\ n = 0 /\ rxNow = RxStart /\ heap = {} /\ win = [e \in Ecus |-> NoWin]
 SeqMax(s) == LET RECURSIVE M(_)
                  M(i) == IF i = 0 THEN 0 ELSE Max2(s[i].maxd, M(i - 1))
              IN M(Len(s))
-Key(w, rx) == IF w.entries[1].start + (W - 1) > rx THEN YOUNG ELSE w.cur
+Key(w, rx) == IF w.entries[1].start + (W - 1) * Sec > rx THEN YOUNG ELSE w.cur
 KeyMax(ws, rx) == LET used == {e \in Ecus : ws[e].entries # <<>>}
                       RECURSIVE MM(_)
                       MM(S) == IF S = {} THEN 0
@@ -67,7 +75,7 @@ KeyMax(ws, rx) == LET used == {e \in Ecus : ws[e].entries # <<>>}
 Upd(w0, lc, rx, delay) ==
   LET sw == w0.lc # lc
       w1 == IF sw THEN [lc |-> lc, entries |-> <<>>, cur |-> delay] ELSE w0
-      insertNew == w1.entries = <<>> \/ w1.entries[Len(w1.entries)].start + 1 < rx
+      insertNew == w1.entries = <<>> \/ w1.entries[Len(w1.entries)].start + Sec < rx
   IN IF insertNew THEN
         LET full == Len(w1.entries) = W
             rD0 == full /\ w1.entries[1].maxd = w1.cur
@@ -105,7 +113,7 @@ Proc(e, lc, rx, raw, ctrl) ==
       ws == [win EXCEPT ![e] = u.w]
       t == IF u.recalcT THEN D + KeyMax(ws, rx) ELSE thr
       r == Release(heap \cup {[idx |-> n, index |-> IndexOf(n), calc |-> calc]}, out, t, rx)
-  IN /\ ts >= 0
+  IN /\ ts >= 0 /\ ts % TsGrid = 0          \* a timestamp the 0.1 ms field can hold
      /\ win' = ws /\ thr' = t /\ heap' = r.h /\ out' = r.o /\ n' = n + 1 /\ rxNow' = rx
      /\ bound' = (bound /\ delay <= D /\ rx >= rxNow)
      /\ inputs' = IF Record THEN Append(inputs, [ecu |-> e, lc |-> lc, rx |-> rx, ts |-> ts, ctrl |-> ctrl, index |-> IndexOf(n),
@@ -143,7 +151,7 @@ TableSeq == LET RECURSIVE T(_)
                         ELSE LET x == CHOOSE y \in S : \A z \in S : y <= z
                              IN <<[id |-> x, start |-> LcStart[x]]>> \o T(S \ {x})
             IN T(LcIds)
-EmitScn == done => PrintT(<<"SCN", ToJson([w |-> W, d |-> D, index_mode |-> IndexMode, table |-> TableSeq, msgs |-> inputs,
+EmitScn == done => PrintT(<<"SCN", ToJson([w |-> W, d |-> D, tick_us |-> TickUs, base |-> BaseTicks, index_mode |-> IndexMode, table |-> TableSeq, msgs |-> inputs,
                                            out |-> [i \in 1..Len(out) |-> out[i].idx],
                                            bound |-> bound, contract_ok |-> ContractOk])>>)
 =============================================================================
